@@ -103,10 +103,21 @@ def step (st : St) (j : Json) : St × List String :=
     (st, [match configureAuth (jStr j "a") fileOK with | .error => "error" | _ => "ok"])
   | "akeys" =>
     let ls := (jArr j "lines").map (fun l =>
-      let kind := match jStr l "kind" with
-        | "rsa" => KeyKind.rsa (jNat l "bits") | "ecdsa" => .ecdsa | "ed25519" => .ed25519 | _ => .other
-      ({ blank := jBool l "blank", kind := kind, comment := jStr l "comment" } : KeyLine))
-    (st, [String.intercalate "|" ((authorizedKeysOf Facts.C04.minimumRSAKeySize ls).map (·.comment))])
+      let v := jObj l "v"
+      let verdict : SshVerdict :=
+        if jBool v "err" || v.isNull then .error
+        else
+          let kind := match jStr v "kind" with
+            | "rsa" => KeyKind.rsa (jNat v "bits") | "ecdsa" => .ecdsa | "ed25519" => .ed25519 | _ => .other
+          .key kind (jStr v "comment")
+      (({ raw := unhexStr (jStr l "raw"), verdict := verdict } : KeyLine), unhexStr (jStr l "pre")))
+    -- the harness states the pre-processed text it fed to the ssh parser: it must be the model's
+    match ls.find? (fun (l, pre) => preprocess l.raw != pre) with
+    | some (l, _) => (st, ["pre-mismatch:" ++ hexStr (preprocess l.raw)])
+    | none =>
+      match authorizedKeysOf Facts.C04.minimumRSAKeySize (ls.map (·.1)) with
+      | none => (st, ["parse-error"])
+      | some ks => (st, [String.intercalate "|" (ks.map (·.comment))])
   | "matchesPath" => (st, [toString (matchesPath (unhexStr (jStr j "a")) (unhexStr (jStr j "b")))])
   | "bindOf" => (st, [hexStr (getBindFromPath (unhexStr (jStr j "a")))])
   | o => (st, ["bad-op:" ++ o])
